@@ -305,6 +305,11 @@ func (x *gen) usesNode(ref string, gr *sg.Grouping, feats []string, allMods []*s
 	}
 	if !topHasWhen && g.Chance(1, 4, "useswhen") {
 		u.When = "../enabled = 'true'"
+		if len(feats) > 0 && g.Bool("whenprefix") {
+			// written with the using module's own prefix: it means what that module's prefixes say, also on the nodes that
+			// come from another module's grouping
+			u.When = "../" + feats[0][:strings.Index(feats[0], ":")] + ":enabled = 'true'"
+		}
 	}
 	if len(feats) > 0 && g.Chance(1, 4, "usesiff") {
 		u.IfFeatures = []string{feats[g.Pick(len(feats), "usesfeat")]}
